@@ -817,8 +817,8 @@ def main(ctx):
         ctx.sample(" ; ".join(case_lines(c))[:600])
 
     # ---------------- key-kind / entry-point metamorphic check on kinds that have no model
-    n_meta = 700 if quick else 4000
-    meta_cases = [gen_meta_case(ctx.rng) for _ in range(n_meta)]
+    n_meta = 600 if quick else 4000
+    meta_cases = [c for c in corpus if c.get("meta")] + [gen_meta_case(ctx.rng) for _ in range(n_meta)]
     meta_cases += [c for c in cases if c.get("monitored") and any(k in ARRAYS for k, _ in c["objs"])][:150 if quick else 800]
     meta_a = []
     for c in meta_cases:
@@ -853,21 +853,6 @@ def main(ctx):
             if len(opw) > 2 and opw[2][1:].isdigit() and int(opw[2][1:]) < len(c["objs"]):
                 okind = c["objs"][int(opw[2][1:])][0]
             sig = "keykind-metamorphic:%s:%s:%s" % (tag, okind, opw[0])
-            if opw[0] == "get":
-                va, vo = strip_impl(a[d])[0].split(" ")[0], strip_impl(other[d])[0].split(" ")[0]
-                if (va == "u") != (vo == "u"):
-                    sig += ":string-keyed-get-misses-inherited-property"
-            if opw[0] == "set" and opw[3].startswith("i"):
-                # a [[Set]] whose walk passes THROUGH a Go map wrapper (explicit other receiver, or the map on the target's chain)
-                gm = [i for i, (k, _) in enumerate(c["objs"]) if k == "gomap"]
-                chain, cur = [], int(opw[2][1:])
-                while cur is not None and cur not in chain:
-                    chain.append(cur)
-                    pr = c["objs"][cur][1]
-                    cur = int(pr[1:]) if pr.startswith("o") and pr[1:].isdigit() else None
-                recv_other = opw[5] not in ("=", opw[2])
-                if any(g in chain and (g != chain[0] or recv_other) for g in gm):
-                    sig = "gomap:setForeignIdx-skips-own-index-key"
             if ctx.known_signature(sig) is None:
                 meta_bad += 1
             if sig in seen_m:
